@@ -319,7 +319,8 @@ def gen_spec(rng, index=0):
 
 # ------------------------------------------------------------------ topology cases
 
-TOPO_OPS = ['integrate_multi', 'integrate_mass', 'integrate_coo', 'eval_geom', 'eval_basis', 'locate', 'locate_missing', 'locate_skip', 'integrate_boundary', 'locate_maxdist']
+TOPO_OPS = ['integrate_multi', 'integrate_mass', 'integrate_coo', 'eval_geom', 'eval_basis', 'locate', 'locate_missing', 'locate_skip', 'integrate_boundary', 'locate_maxdist',
+            'integrate_csr']
 
 
 def gen_topo_spec(rng, index=0):
@@ -373,11 +374,13 @@ class TopoCase:
         from nutils import function
         op, b, u, J, g = self.spec['op'], self.basis, self.u, self.J, self.geom
         if op == 'integrate_multi':
-            return self.sample.integrate([b[:, None] * b[None, :] * J, b * u * J, u**2 * J, (g * u).sum() * J], arguments=self.args)
+            return self.sample.integrate([b[:, None] * b[None, :] * J, b * u * J, u**2 * J, (g * u).sum(-1) * J], arguments=self.args)
         if op == 'integrate_mass':
             return self.sample.integrate(b[:, None] * b[None, :] * (1 + u**2) * J, arguments=self.args),
         if op == 'integrate_coo':
             return function.eval(function.as_coo(self.sample.integral(b[:, None] * b[None, :] * J)))
+        if op == 'integrate_csr':
+            return function.eval(function.as_csr(self.sample.integral(b[:, None] * b[None, :] * (1 + u**2) * J)), arguments=self.args)
         if op == 'integrate_boundary':
             bs = self.domain.boundary.sample('gauss', 2)
             return bs.integrate([b * function.J(g), u * function.J(g)], arguments=self.args)
